@@ -386,6 +386,94 @@ def fam_order_seq(tier: str, rng: random.Random) -> Iterator[dict]:
         yield p
 
 
+def fam_wants_args(tier: str, rng: random.Random) -> Iterator[dict]:
+    """Two or three precondition groups (inheritance); a condition of a LATER group asks for _ARGS; the earlier groups
+    are violated (their messages are built) before it is evaluated."""
+    for kind in ("method", "static"):
+        for shape in ([[1], [2]], [[1], [2], [3]], [[1, 2], [3]]):
+            n = _shape_ncons(shape)
+            for bits in itertools.product([True, False], repeat=n):
+                if bits[0]:
+                    continue
+                for isasync in (False, True):
+                    for form in ("default", "inst"):
+                        p = member_prog(kind, False, shape, 0, 0, bits, [], [form], False, isasync, ncalls=2, tag="wants-args")
+                        if p is None:
+                            continue
+                        p["con"][n - 1]["wants_args"] = True
+                        yield p
+
+
+def fam_snap_rec(tier: str, rng: random.Random) -> Iterator[dict]:
+    """C08: overlapping calls of the same callable with equally named snapshots (the body calls the function again,
+    a condition of another function calls it): every call's postconditions and error factories see ITS pre-state."""
+    for isasync in (False, True):
+        for kind in ("func", "method"):
+            for nsnap in (1, 2):
+                for post_truth in ([True, True, True], [True, True, False], [True, False, True]):
+                    for form in ("default", "factory"):
+                        p = member_prog(kind, False, [], 1, nsnap, [], [True], [form], False, isasync, arg=2, ncalls=2,
+                                        tag="snap-rec")
+                        if p is None:
+                            continue
+                        f = len(p["fn"])
+                        fn = p["fn"][f - 1]
+                        fn["script"] = [Op("call", f, -1 if kind == "method" else 0, 1, when=2)]   # recursion with another argument
+                        for snp in p["snp"]:
+                            snp["byarg"] = 1
+                        p["con"][0]["truth"] = list(post_truth)
+                        yield p
+
+
+def fam_errdefaults(tier: str, rng: random.Random) -> Iterator[dict]:
+    """C09: error factories all of whose parameters carry default values still receive the values of the call."""
+    for p in fam_err(tier, rng):
+        if any(c["err"] in ("factory", "badfactory") for c in p["con"]) and not any(c["lam"] for c in p["con"]):
+            q = json_copy(p)
+            q["errdefaults"] = True
+            q["tag"] = p["tag"] + "-errdefaults"
+            yield q
+
+
+def fam_reent_cap(tier: str, rng: random.Random) -> Iterator[dict]:
+    """C10: snapshot captures (plain and coroutine) that call the function they belong to, directly or through another
+    contracted function: own re-entry while the contracts are evaluated, skipped exactly once."""
+    for isasync in (False, True):
+        for rv in (("bool",) if not isasync else ("bool", "corofn")):
+            for via in ("direct", "mutual"):
+                for pre in (False, True):
+                    cons = [Con("post"), Con("post")] + ([Con("pre")] if pre else [])
+                    target = 1 if via == "direct" else 2
+                    snps = [Snp(21, rv, [Op("call", target, 0, 1)]), Snp(22, "bool", [Op("call", 1, 0, 1)])]
+                    fns = [Fn("func", 0, isasync, ["chk"], [[3]] if pre else [], [1], [1]),
+                           Fn("func", 0, isasync, ["chk"], [], [2], [2])]
+                    drv = [Op("call", 1, 0, 1), Op("call", 2, 0, 2), Op("call", 1, 0, 2)]
+                    yield Prog(fns, cons, snps, [], [], [drv], tag="reent-cap")
+
+
+def fam_order_mixed_async(tier: str, rng: random.Random) -> Iterator[dict]:
+    """C16: coroutine functions whose stacks mix plain and coroutine-function conditions: evaluated in the declared
+    order whatever their flavour."""
+    shapes = [[[1, 2]], [[1, 2, 3]], [[1, 2], [3]]]
+    for kind in ("func", "method"):
+        for shape in shapes:
+            n = _shape_ncons(shape)
+            for npost in (0, 2):
+                for flav in itertools.product(("bool", "corofn"), repeat=n + npost):
+                    if len(set(flav)) < 2:
+                        continue
+                    for bits in itertools.product([True, False], repeat=n + npost):
+                        if all(bits) or (tier == "quick" and rng.random() < 0.6):
+                            continue
+                        p = member_prog(kind, False, shape, npost, 0, bits[:n], bits[n:], ["inst", "factory"], False, True,
+                                        tag="order-mixed-async")
+                        if p is None:
+                            continue
+                        for c, rv in zip(p["con"], flav):
+                            c["rv"] = rv
+                        yield p
+
+
 def fam_badkw(tier: str, rng: random.Random) -> Iterator[dict]:
     """Calls that pass an unexpected keyword named like a reserved name (result=...) through the callee's **kwargs,
     mixed with ordinary calls of the same callable: rejected with TypeError where the callable has postconditions
